@@ -29,8 +29,8 @@ type scenario6 struct {
 	Cfg       int        `json:"cfg"` // client logging configuration (cli.LogOpts6)
 }
 
-var solKinds = []string{"advertise", "advertise", "advertise-wrongxid", "reply", "reply-wrongxid", "undecodable", "advertise-nosid", "relay-typed", "silence"}
-var req6Kinds = []string{"reply", "reply", "reply-wrongxid", "advertise-samexid", "undecodable", "silence"}
+var solKinds = []string{"advertise", "advertise", "advertise-wrongxid", "reply", "reply-wrongxid", "undecodable", "advertise-nosid", "relay-typed", "relay-wrapped", "silence"}
+var req6Kinds = []string{"reply", "reply", "reply-wrongxid", "advertise-samexid", "undecodable", "relay-wrapped", "silence"}
 
 type inj6 struct {
 	nonce  int
@@ -76,6 +76,11 @@ func dgram6(kind string, xid [3]byte, cid []byte, nonce int, idx int) (*inj6, []
 		in.valid = false
 	case "relay-typed":
 		b = append([]byte{13}, make([]byte, 33)...)
+		in.valid = false
+	case "relay-wrapped": // the right answer, but inside a Relay-reply: not a message for a client
+		h := make([]byte, 34)
+		h[0], h[17], h[33] = 13, 1, 2
+		b = append(append(h, 0, 9, byte(len(b)>>8), byte(len(b))), b...)
 		in.valid = false
 	}
 	in.xid = x
